@@ -131,6 +131,19 @@ inductive Out where
   | deliver (p : Bytes)
 deriving DecidableEq, Repr
 
+/-- Ghost events (not in the code; they do not influence any step): what was *checked* so far in
+this handshake, so that theorems can speak about "in that same handshake". -/
+inductive Ev where
+  /-- `handle_certificate` accepted this leaf (digest and key checks passed) -/
+  | cert (leaf : Bytes)
+  /-- the ServerKeyExchange signature verified under `leaf` over `cr ‖ sr ‖ params(body)` -/
+  | ske (leaf cr sr body : Bytes)
+  /-- session keys derived from (own share, peer share, randoms, EMS flag, transcript) -/
+  | keys (pub peerPub cr sr : Bytes) (ems : Bool) (transcript : Bytes) (k : Keys)
+  /-- the peer's Finished verified under `k` for this transcript -/
+  | finished (k : Keys) (transcript : Bytes)
+deriving DecidableEq, Repr
+
 /-- `HandshakeContext` -/
 structure Ctx where
   seqNum        : Nat := 0
@@ -165,6 +178,7 @@ structure Ep where
   writeEpoch : Nat := 0                 -- the atomics used by `send_record`
   writeSeq   : Nat := 0
   ctx        : Ctx := {}
+  evs        : List Ev := []            -- ghost
 deriving Repr
 
 /-- result of a handler: new endpoint, outputs (oldest first), and whether it returned `Err` -/
@@ -216,7 +230,7 @@ def handleCertificate (C : Crypto) (e : Ep) (body : Bytes) : R :=
   | some (leaf :: _) =>
     if fpMismatch e.ctx.expectedFp (C.digest leaf) then failed e
     else if !C.pkOk leaf then failed e
-    else ok { e with ctx := { e.ctx with peerCert := some leaf } }
+    else ok { e with ctx := { e.ctx with peerCert := some leaf }, evs := .cert leaf :: e.evs }
 
 def selectSrtp (ps : List Nat) : Option Nat :=
   match ps with
@@ -267,36 +281,48 @@ def handleClientKeyExchange (C : Crypto) (L : Loc) (e : Ep) (body : Bytes) : R :
       let c0 := { e.ctx with peerPub := some pk }
       match deriveKeys C L c0 with
       | none => ok { e with ctx := c0 }
-      | some k => ok { e with ctx := { c0 with keys := some k } }
+      | some k => ok { e with ctx := { c0 with keys := some k },
+                              evs := .keys L.pub pk (c0.clientRandom.getD []) (c0.serverRandom.getD []) c0.ems c0.transcript k :: e.evs }
+
+def withCtx (e : Ep) (c : Ctx) : Ep := { e with ctx := c }
 
 /-- publishing `Connected`: state, then the two atomics, then `local_secret = None` -/
-def connect (e : Ep) (k : Keys) : Ep :=
+def connect (e : Ep) (k : Keys) (verifiedOver : Bytes) : Ep :=
   { e with conn := .connected, connKeys := some k, connSrtp := e.ctx.srtp,
+           evs := .finished k verifiedOver :: e.evs,
            writeEpoch := e.ctx.epoch, writeSeq := e.ctx.seqNum,
            ctx := { e.ctx with localSecret := false } }
 
 def zeros12 : Bytes := List.replicate 12 0
 
+/-- the Finished check: with keys the verify_data must equal ours for the current transcript; the
+server branch runs it only `if let Some(keys)` -/
+def finishedBad (C : Crypto) (c : Ctx) (body : Bytes) (clientLabel : Bool) : Bool :=
+  match c.keys with
+  | some k => decide (body ≠ C.vd k.ms clientLabel c.transcript)
+  | none => false
+
+/-- the server's final flight: transcript += client Finished, ChangeCipherSpec, epoch switch, own
+Finished (all-zero verify_data when there are no keys) -/
+def serverFinalFlight (C : Crypto) (c : Ctx) (raw : Bytes) : List WRec × Ctx :=
+  let c0 := { c with transcript := c.transcript ++ raw }
+  let (rc, c1) := ccsRecord c0
+  let verify := match c1.keys with
+    | some k => C.vd k.ms false c1.transcript
+    | none => zeros12
+  let rawF := rawMsg dtlsHtFinished c1.msgSeq verify
+  let c2 := { c1 with transcript := c1.transcript ++ rawF }
+  let (rf, c3) := hsRecord c2 rawF c2.keys.isSome
+  ([rc, rf], { c3 with lastFlight := some [rc, rf] })
+
 /-- `handle_finished`, server branch -/
 def handleFinishedServer (C : Crypto) (e : Ep) (body raw : Bytes) : R :=
-  let bad := match e.ctx.keys with
-    | some k => decide (body ≠ C.vd k.ms true e.ctx.transcript)
-    | none => false
-  if bad then failed e
+  if finishedBad C e.ctx body true then failed e
   else
-    let c0 := { e.ctx with transcript := e.ctx.transcript ++ raw }
-    let (rc, c1) := ccsRecord c0
-    let verify := match c1.keys with
-      | some k => C.vd k.ms false c1.transcript
-      | none => zeros12
-    let rawF := rawMsg dtlsHtFinished c1.msgSeq verify
-    let c2 := { c1 with transcript := c1.transcript ++ rawF }
-    let (rf, c3) := hsRecord c2 rawF c2.keys.isSome
-    let c4 := { c3 with lastFlight := some [rc, rf] }
-    let e1 := { e with ctx := c4 }
-    match c4.keys with
-    | some k => ok (connect e1 k) (sends [rc, rf])
-    | none => ⟨{ e1 with conn := .failed }, sends [rc, rf], true⟩
+    let fc := serverFinalFlight C e.ctx raw
+    match e.ctx.keys with
+    | some k => ok (connect (withCtx e fc.2) k e.ctx.transcript) (sends fc.1)
+    | none => ⟨{ withCtx e fc.2 with conn := .failed }, sends fc.1, true⟩
 
 /-- `handle_finished`, client branch -/
 def handleFinishedClient (C : Crypto) (e : Ep) (body : Bytes) : R :=
@@ -304,7 +330,7 @@ def handleFinishedClient (C : Crypto) (e : Ep) (body : Bytes) : R :=
   | none => ok e
   | some k =>
     if body ≠ C.vd k.ms false e.ctx.transcript then failed e
-    else ok (connect e k)
+    else ok (connect e k e.ctx.transcript)
 
 /-- `handle_hello_verify_request` (no role test in the code) -/
 def handleHvr (C : Crypto) (L : Loc) (e : Ep) (body : Bytes) : R :=
@@ -337,23 +363,31 @@ def handleServerKeyExchange (C : Crypto) (e : Ep) (body : Bytes) : R :=
         match e.ctx.clientRandom, e.ctx.serverRandom with
         | some cr, some sr =>
           if C.sigOk leaf cr sr body then
-            ok { e with ctx := { e.ctx with peerPub := some share, skeVerified := true } }
+            ok { e with ctx := { e.ctx with peerPub := some share, skeVerified := true },
+                        evs := .ske leaf cr sr body :: e.evs }
           else failed e
         | _, _ => failed e
+
+/-- the client's ChangeCipherSpec + Finished once keys exist -/
+def clientFinalFlight (C : Crypto) (c : Ctx) (k : Keys) : List WRec × Ctx :=
+  let c2 := { c with keys := some k }
+  let (rc, c3) := ccsRecord c2
+  let (rf, c4) := emitMsg c3 dtlsHtFinished (C.vd k.ms true c3.transcript) true
+  ([rc, rf], { c4 with lastFlight := some [rc, rf] })
 
 /-- `handle_server_hello_done` -/
 def handleServerHelloDone (C : Crypto) (L : Loc) (e : Ep) : R :=
   if e.ctx.keys.isSome then ok e
   else if e.isClient && !e.ctx.skeVerified then failed e
   else
-    let (rk, c1) := emitMsg e.ctx dtlsHtClientKeyExchange L.ckeBody false
-    match deriveKeys C L c1 with
-    | none => ok { e with ctx := c1 } (sends [rk])
+    let kc := emitMsg e.ctx dtlsHtClientKeyExchange L.ckeBody false
+    match deriveKeys C L kc.2 with
+    | none => ok (withCtx e kc.2) (sends [kc.1])
     | some k =>
-      let c2 := { c1 with keys := some k }
-      let (rc, c3) := ccsRecord c2
-      let (rf, c4) := emitMsg c3 dtlsHtFinished (C.vd k.ms true c3.transcript) true
-      ok { e with ctx := { c4 with lastFlight := some [rc, rf] } } (sends [rk, rc, rf])
+      let fc := clientFinalFlight C kc.2 k
+      ok { withCtx e fc.2 with
+             evs := .keys L.pub (kc.2.peerPub.getD []) (kc.2.clientRandom.getD []) (kc.2.serverRandom.getD []) kc.2.ems kc.2.transcript k :: e.evs }
+         (sends (kc.1 :: fc.1))
 
 /-- `handle_handshake_message` -/
 def handleMsg (C : Crypto) (L : Loc) (e : Ep) (typ : Nat) (body raw : Bytes) : R :=
@@ -391,8 +425,6 @@ def noteMsg (c : Ctx) (typ : Nat) (raw : Bytes) : Ctx :=
            transcript := if inTranscript typ then c.transcript ++ raw else c.transcript }
 
 def takeBuffer (c : Ctx) : Ctx := { c with incomplete := [] }
-
-def withCtx (e : Ep) (c : Ctx) : Ep := { e with ctx := c }
 
 /-- the expected message (after the sequence filters): reassembly, transcript, handler -/
 def acceptMsg (C : Crypto) (L : Loc) (e : Ep) (m : HsMsg) : R :=
@@ -534,5 +566,34 @@ def onSend (e : Ep) (data : Bytes) : Ep × List Out :=
     ({ e with writeSeq := e.writeSeq + cs.length },
      (List.range cs.length).zipWith (fun i c => Out.send ⟨dtlsCtApplicationData, e.writeEpoch, e.writeSeq + i, true, c⟩) cs)
   else (e, [])
+
+/-- `export_keying_material`: only in state Connected (label/length handling is the PRF's) -/
+def exporter (e : Ep) : Option Keys := if e.conn = .connected then e.connKeys else none
+
+/-! ### histories of one endpoint -/
+
+/-- everything that can happen to an endpoint; `packet` carries the AEAD's behaviour on that
+datagram as an arbitrary function, so "every datagram an on-path party can feed" includes every
+outcome of decryption -/
+inductive Op where
+  | packet (dec : DecFn) (bs : Bytes)
+  | send (data : Bytes)
+  | close
+  | tick
+  | deadline
+
+def stepOp (C : Crypto) (L : Loc) (e : Ep) : Op → Ep × List Out
+  | .packet dec bs => onPacket dec C L e bs
+  | .send d => onSend e d
+  | .close => onClose e
+  | .tick => (e, onTick e)
+  | .deadline => (onDeadline e, [])
+
+def runOps (C : Crypto) (L : Loc) (e : Ep) : List Op → Ep × List Out
+  | [] => (e, [])
+  | o :: os =>
+    let (e1, o1) := stepOp C L e o
+    let (e2, o2) := runOps C L e1 os
+    (e2, o1 ++ o2)
 
 end RtcModel.DtlsHs
